@@ -142,7 +142,7 @@ def gen_conv(r, depth, nout, fmt=None, ch=None, ratio=None, full_scale=False, ta
 def gen_coq_cases(rng, tier):
     """small cases evaluated by the Coq model (Flocq under vm_compute: ~0.6 ms per float operation)"""
     items = []
-    n = 420 if tier == "quick" else 4000
+    n = 260 if tier == "quick" else 3000
     # construction of depth 0 (Fixed::from panics) and plain construction
     items.append(dict(kind="D", fmt=0, ch=1, depth=0, ops=[], tag="ctor"))
     for k in range(n):
@@ -199,10 +199,10 @@ def gen_delay(rng, tier):
 
 def gen_constant(rng, tier):
     depths = [4, 5, 6, 8, 16, 32, 64] if tier == "quick" else list(range(4, 65))
-    npos = 64 if tier == "quick" else 1000
     items = []
     for d in depths:
         for fmt in (0, 1, 2):
+            npos = 64 if tier == "quick" else (1000 if fmt == 0 else 250)
             r = rng.fork(f"const{d}.{fmt}")
             c = rnd_sample(r, fmt)
             while M.FMT[fmt]["dec"](c) == 0 or (fmt == 2 and abs(c) < 2000):
@@ -386,7 +386,7 @@ def main(rep, tier, seed):
         return finish(rep, info, {}, [], {})
     stats = {}
     # 0. the float base the executable model stands on
-    nfb, fb_bad, fb_err = floatbase.run(rng.fork("fbase"), 300 if tier == "quick" else 3000)
+    nfb, fb_bad, fb_err = floatbase.run(rng.fork("fbase"), 150 if tier == "quick" else 2000)
     stats["floatbase_cases"], stats["floatbase_disagreements"] = nfb, len(fb_bad)
     for name, msg in fb_err:
         rep.violation("floatbase_error", {"kind": "float base validation could not run", "where": name, "log": msg}, no_input=True)
